@@ -26,9 +26,16 @@ struct MPool {   // one shared pool (possibly several allocator objects refer to
 struct MAlloc { int pool = -1; size_t policy_min = 0; };
 
 static inline size_t al8(size_t n) { return (n + 7) & ~(size_t)7; }
-static void paint(char* p, size_t n, uint32_t tag) { for (size_t i = 0; i < n; i++) p[i] = (char)(tag * 131 + i * 7 + (i >> 8)); }
+// blocks of more than 1 MiB (the rare > 4 GiB histories) are painted and verified at both ends only
+static const size_t kEdge = 4096, kBigBlock = 1u << 20;
+static inline char pat(uint32_t tag, size_t i) { return (char)(tag * 131 + i * 7 + (i >> 8)); }
+static void paint(char* p, size_t n, uint32_t tag) {
+  if (n <= kBigBlock) { for (size_t i = 0; i < n; i++) p[i] = pat(tag, i); return; }
+  for (size_t i = 0; i < kEdge; i++) { p[i] = pat(tag, i); p[n - 1 - i] = pat(tag, n - 1 - i); }
+}
 static bool painted(const char* p, size_t n, uint32_t tag, size_t& bad) {
-  for (size_t i = 0; i < n; i++) if (p[i] != (char)(tag * 131 + i * 7 + (i >> 8))) { bad = i; return false; }
+  if (n <= kBigBlock) { for (size_t i = 0; i < n; i++) if (p[i] != pat(tag, i)) { bad = i; return false; } return true; }
+  for (size_t i = 0; i < kEdge; i++) { if (p[i] != pat(tag, i)) { bad = i; return false; } if (p[n - 1 - i] != pat(tag, n - 1 - i)) { bad = n - 1 - i; return false; } }
   return true;
 }
 
@@ -137,8 +144,9 @@ struct PoolExec {
     int a = (int)((uint64_t)op.A(0) % NA);
     if (k == "New") {
       destroy(a);
-      static const size_t caps[] = {64, 100, 256, 1024, 4096, 65536, 8, 72};
-      size_t cs = caps[(uint64_t)op.A(1) % 8];
+      static const size_t caps[] = {64, 100, 256, 1024, 4096, 65536, 8, 72, (size_t)9 << 30};
+      size_t cs = caps[(uint64_t)op.A(1) % 9];
+      if (cs > 65536 && !plan.K("huge", 0)) cs = 65536;
       int mode = (int)(op.A(2) % 4);
       MPool mp; mp.refs = 1;
       if (mode <= 1) {
@@ -324,6 +332,7 @@ static bool run_env(const Plan& p, int e, Outcome& out, std::vector<uint64_t>& h
 
 static void exec_pool(const Plan& p, Outcome& out) {
   std::vector<uint64_t> h[2];
+  if (p.K("huge", 0) && !simmem::guarded()) return;   // > 4 GiB histories need the virtual-memory arena; the sanitizer flavour would really allocate them
   uint64_t c0 = simmem::g_ctr[simmem::C_ALLOC];
   for (int e = 0; e < 2; e++) {
     bool ok = p.K("adaptive", 0) ? run_env<AdaptiveChunkPolicy>(p, e, out, h[e]) : run_env<SimpleChunkPolicy>(p, e, out, h[e]);
@@ -346,6 +355,21 @@ static void gen_c16(uint64_t seed, uint64_t run, const std::string& tier, Plan& 
   Rng r(rs);
   p.prop = "C16"; p.seed = seed; p.run = run; p.tier = tier;
   p.knobs["envseed"] = (int64_t)(mix64(rs ^ 0x77) >> 1);
+  if (r.chance(1, 150)) {
+    // sizes of 2^32 bytes and more: one 9 GiB chunk (virtual memory only), in-place growth across the 4 GiB line
+    p.knobs["huge"] = 1; p.knobs["adaptive"] = 0;
+    auto addh = [&](const char* k) -> Op& { p.ops.emplace_back(); p.ops.back().kind = k; return p.ops.back(); };
+    { Op& o = addh("New"); o.a = {0, 8, 0, 0}; }
+    size_t pre = (size_t)r.range(0, 3);
+    for (size_t i = 0; i < pre; i++) { Op& o = addh("Malloc"); o.a = {0, (int64_t)r.range(1, 100)}; }
+    { Op& o = addh("Malloc"); o.a = {0, (int64_t)r.range(1, 64)}; }
+    static const int64_t big[] = {(int64_t)1 << 32, ((int64_t)1 << 32) + 8, ((int64_t)1 << 32) - 8, ((int64_t)1 << 32) + 100, (int64_t)5 << 30, ((int64_t)1 << 31) + 24, ((int64_t)3 << 30)};
+    { Op& o = addh("Realloc"); o.a = {0, (int64_t)pre, big[r.below(7)] + (int64_t)r.below(64)}; }   // the most recent block
+    size_t post = (size_t)r.range(1, 4);
+    for (size_t i = 0; i < post; i++) { Op& o = addh(r.chance(2, 3) ? "Malloc" : "Realloc"); if (o.kind == "Malloc") o.a = {0, (int64_t)r.range(1, 200)}; else o.a = {0, 1000000 - 1, (int64_t)r.range(1, 300)}; }
+    if (r.chance(1, 2)) { Op& o = addh("Clear"); o.a = {0}; Op& o2 = addh("Malloc"); o2.a = {0, (int64_t)r.range(1, 100)}; }
+    return;
+  }
   p.knobs["adaptive"] = r.chance(1, 3);
   int64_t capsel = (int64_t)r.below(8);
   auto add = [&](const char* k) -> Op& { p.ops.emplace_back(); p.ops.back().kind = k; return p.ops.back(); };
